@@ -17,6 +17,7 @@ from harness import dataset as D
 from harness import gen_classify as G
 
 PROP = 'C04'
+MODELS = ['Model/Flags.vo']   # .vo files the generated case files import
 PRE = 'From Spowtd Require Import Model.Flags.\n'
 
 
